@@ -91,7 +91,7 @@ def setup (model : String) (p : Array Float) : Option Setup :=
     | none => none
     | some (mt, pt) =>
       if (g 0).toUInt64.toNat.toFloat != g 0 then none else
-      let sArr : Array Float := (mt.map Model.ProtModel.ofRat).toArray
+      let sArr : Array Float := (mt.flatten.map Model.ProtModel.ofRat).toArray
       let pArr : Array Float := (pt.map Model.ProtModel.ofRat).toArray
       let user : Option (Nat → Float) := if sz == 21 then some (fn1 (p.extract 1 21)) else none
       let ini := Model.ProtModel.initModel 20 (fn2 20 sArr) (fn1 pArr) user
